@@ -59,6 +59,8 @@ type FnCtx struct {
 	litText        map[string]string
 	catParts       map[string][]strAtom
 	entryHeld      string
+	clauseErr      string
+	usesLock       bool
 	sorts          map[string]string
 	constArrs      map[string]string
 	loopUnkPkgs    []*types.Package
@@ -279,6 +281,27 @@ func (s *State) havocCall(reason string, pkgs []*types.Package, funcArg bool) {
 		}
 		if funcArg {
 			return false
+		}
+		if fam := keyFamily(key); fam != "" {
+			ws := eng.writersOf(fam)
+			if len(ws) == 0 {
+				return false
+			}
+			for w := range ws {
+				if w == nil || !eng.callbackFree(w) {
+					return false
+				}
+				pp := w.Path()
+				if !(pp == "servitor" || strings.HasPrefix(pp, "servitor/")) {
+					return false
+				}
+				for _, q := range pkgs {
+					if q == nil || eng.reaches(q, w) {
+						return false
+					}
+				}
+			}
+			return true
 		}
 		info, ok := eng.keyInfo[fldPrefixOf(key)]
 		if !ok || !info.private || info.pkg == nil {
@@ -919,10 +942,12 @@ func (s *State) script(goalNeg string) string {
 
 // oblige emits a proof goal: in this state, `goal` must hold.
 func (s *State) oblige(kind string, instr ssa.Instruction, n int, goal, desc string, contract bool) {
-	if goal == "true" {
-		// still count it as discharged trivially
-	}
 	c := s.c
+	if c.clauseErr != "" {
+		goal = "false"
+		desc += " [clause cannot be evaluated here: " + c.clauseErr + "]"
+		c.clauseErr = ""
+	}
 	name := fmt.Sprintf("%s/%s", c.name, kind)
 	if n >= 0 {
 		name = fmt.Sprintf("%s/%s#%d", c.name, kind, n)
@@ -942,6 +967,11 @@ func (s *State) oblige(kind string, instr ssa.Instruction, n int, goal, desc str
 
 func (s *State) obligeNamed(name, kind, goal, desc string, contract bool) {
 	c := s.c
+	if c.clauseErr != "" {
+		goal = "false"
+		desc += " [clause cannot be evaluated here: " + c.clauseErr + "]"
+		c.clauseErr = ""
+	}
 	o := &Obligation{Name: name, Func: c.name, Kind: kind, Desc: desc, Expect: "unsat", PathID: c.paths, Contract: contract}
 	o.Script = s.script(not(goal))
 	if len(o.Script) > c.eng.maxVC {
